@@ -41,6 +41,8 @@ type Channel struct {
 	// the read lock.
 	closeCh   chan struct{}
 	closeOnce sync.Once
+	// sendLock serializes the transmission of packets.
+	sendLock sync.Mutex
 
 	channelId int
 
@@ -183,9 +185,11 @@ func (tdsChan *Channel) Close() error {
 		// Send packet to tear down logical channel
 		teardown := NewPacket(tdsChan.tdsConn.PacketSize())
 		teardown.Data = nil
-		tdsChan.CurrentHeaderType = TDS_BUF_CLOSE
 
-		if err := tdsChan.sendPacket(teardown); err != nil {
+		// The header type is passed explicitly instead of setting
+		// CurrentHeaderType, which belongs to the goroutine sending
+		// packages on the channel.
+		if err := tdsChan.sendPacketWithType(teardown, TDS_BUF_CLOSE); err != nil {
 			me = multierror.Append(me,
 				fmt.Errorf("error sending teardown for channel %d: %w",
 					tdsChan.channelId, err))
@@ -594,7 +598,19 @@ func (tdsChan *Channel) sendPackets(ctx context.Context, onlyFull bool) error {
 }
 
 func (tdsChan *Channel) sendPacket(packet *Packet) error {
-	packet.Header.MsgType = tdsChan.CurrentHeaderType
+	return tdsChan.sendPacketWithType(packet, tdsChan.CurrentHeaderType)
+}
+
+// sendPacketWithType sends a packet with the passed header type.
+//
+// Packets of a channel are sent one after the other, even if multiple
+// goroutines use the channel - e.g. closing the channel while
+// a package is being sent.
+func (tdsChan *Channel) sendPacketWithType(packet *Packet, msgType PacketHeaderType) error {
+	tdsChan.sendLock.Lock()
+	defer tdsChan.sendLock.Unlock()
+
+	packet.Header.MsgType = msgType
 
 	// Channel 0 does not need PacketNr or Window
 	if tdsChan.channelId > 0 {
